@@ -257,6 +257,7 @@ type replayer struct {
 	retained []retainedResult // nil = do not retain (diagnostic probes)
 	curStep  int
 	content  func(*blockchain.FilteredEvent) string // overrides checkContent (concurrent round: any version)
+	onBuilt  func(oBlock)                           // called with the completed block before it is stored
 }
 
 // poisonStore lends every value to the Get callback as a private copy and scribbles over it when
@@ -405,6 +406,11 @@ func (r *replayer) store(blk [][]mEvent) (stored bool, err error) {
 	if err != nil {
 		return false, fmt.Errorf("MACHINERY build: %w", err)
 	}
+	ob.number = b.Block.Number
+	ob.hash = new(felt.Felt).Set(b.Block.Hash)
+	if r.onBuilt != nil {
+		r.onBuilt(ob) // concurrent round: readers may see the block before Store returns
+	}
 	if r.variant&4 != 0 {
 		// the sequencer path: Finalise recomputes hash and commitments and stores
 		err = r.node.BC.Finalise(b.Block, b.Update, b.Classes, nil)
@@ -414,8 +420,9 @@ func (r *replayer) store(blk [][]mEvent) (stored bool, err error) {
 	if err != nil {
 		return false, err
 	}
-	ob.number = b.Block.Number
-	ob.hash = b.Block.Hash
+	if !ob.hash.Equal(b.Block.Hash) {
+		return false, fmt.Errorf("MACHINERY: block hash changed between Simulate and the store")
+	}
 	r.oracle = append(r.oracle, ob)
 	return true, nil
 }
